@@ -66,6 +66,17 @@ def gen_world(rng):
             add(prefixes[a] + '_new_caption', None, 0, rng.choice(others))
         if aps:
             add(prefixes[a] + '_new_from_parent', None, 0, rng.choice(aps))
+    # functions annotated (method) whose names do not carry the prefix of their first parameter's type
+    for j in range(rng.choice([0, 0, 1, 2])):
+        cands = [n for n, k, r, ps in types if k in ('TClass', 'TRecord', 'TBoxedRecord', 'TInterface')]
+        if cands:
+            sub = rng.choice(['frobnicate', 'poke_it', 'x_do']) + str(j)
+            if sub not in seen:
+                seen.add(sub)
+                funcs.append(dict(sub=sub, first=(rng.choice(cands), 1), nparams=rng.randint(1, 2), ret=None, ann_method=True))
+    # functions of this namespace whose names also carry the (longer) symbol prefix of the included namespace FooExt
+    for sub in rng.sample(['ext_thing', 'ext_get_from_window', 'extra'], rng.randint(0, 2)):
+        add(sub, None, 0, None)
     # functions whose first parameter is a type of an included namespace and whose name carries that type's prefix
     for sub, ft in (('object_describe', 'GObject'), ('cancellable_poke', 'GCancellable'), ('initially_unowned_sink', 'GInitiallyUnowned')):
         if rng.random() < 0.5:
@@ -75,7 +86,8 @@ def gen_world(rng):
         if sub not in seen:
             seen.add(sub)
             funcs.append(dict(sub=sub, first=None, nparams=0, ret=None, prefix='bar'))
-    return dict(types=types, funcs=funcs, constants=[('FOO_MAJOR', 'MAJOR'), ('BAR_MINOR', 'MINOR')], bar_types=[('BarGadget', 'Gadget')])
+    return dict(types=types, funcs=funcs, constants=[('FOO_MAJOR', 'MAJOR'), ('BAR_MINOR', 'MINOR'), ('FOO_EXT_SCALE', 'EXT_SCALE')],
+                bar_types=[('BarGadget', 'Gadget')], tag_first=[n for n, k, r, ps in types if k != 'TEnum' and rng.random() < 0.4])
 
 
 def build(world, S):
@@ -88,9 +100,11 @@ def build(world, S):
         if k == 'TEnum':
             syms.append(S.enum_typedef(cname, [('FOO_%s_A' % n.upper(), 0, False), ('FOO_%s_B' % n.upper(), 1, False)], line=line))
         else:
-            syms.append(S.FS(S.CSYMBOL_TYPE_TYPEDEF, cname, base_type=S.FT(S.CTYPE_STRUCT, '_' + cname), line=line))
-            syms.append(S.FS(S.CSYMBOL_TYPE_STRUCT, '_' + cname, base_type=S.FT(S.CTYPE_STRUCT, '_' + cname, child_list=[
-                S.FS(S.CSYMBOL_TYPE_MEMBER, 'x', base_type=S.td('gint'), line=line + 1)]), line=line + 1))
+            pair = [S.FS(S.CSYMBOL_TYPE_TYPEDEF, cname, base_type=S.FT(S.CTYPE_STRUCT, '_' + cname), line=line),
+                    S.FS(S.CSYMBOL_TYPE_STRUCT, '_' + cname, base_type=S.FT(S.CTYPE_STRUCT, '_' + cname, child_list=[
+                        S.FS(S.CSYMBOL_TYPE_MEMBER, 'x', base_type=S.td('gint'), line=line + 1)]), line=line + 1)]
+            # "struct _FooX {...}; typedef struct _FooX FooX;" or the typedef first
+            syms += pair[::-1] if n in world.get('tag_first', []) else pair
         if reg:
             gt = 'foo_%s_get_type' % uscore(n)
             syms.append(S.func(gt, S.td('GType'), [], line=line + 2))
@@ -126,6 +140,8 @@ def build(world, S):
     syms.append(S.func('_foo_hidden_fn', S.td('gint'), [], line=line + 1))
     syms.append(S.func('g_foreign_fn', S.td('gint'), [], line=line + 2))
     syms.append(S.func('baz_unrelated', S.td('gint'), [], line=line + 3))
+    world['comments'] = [('/**\n * %s: (method)\n * @self_: the object\n *\n * An annotated method.\n */' % sym_of(f), '/src/foo.c', 5000 + 10 * i)
+                         for i, f in enumerate(world['funcs']) if f.get('ann_method')]
     return syms, ET.ElementTree(ET.fromstring(''.join(dump)))
 
 
@@ -143,8 +159,9 @@ def coq_world(i, world, obs, intro):
         if f['first'] is not None and f['first'][0] != 'gint' and not f['first'][0].startswith('!'):
             first = '(Some (%s, %d%%nat))' % (cstr(f['first'][0]), f['first'][1])
         fcs.append('{| f4_func := {| fn_symbol := %s; fn_sub := %s; fn_first := %s; fn_nparams := %d%%nat; fn_ret := %s; '
-                   'fn_ann_method := false; fn_ann_constructor := false |}; f4_intro := %s; f4_obs := %s |}'
-                   % (cstr(sym_of(f)), cstr(f['sub']), first, f['nparams'], copt(f['ret'], cstr), cbool(intro.get(sym_of(f), True)),
+                   'fn_ann_method := %s; fn_ann_constructor := false |}; f4_intro := %s; f4_obs := %s |}'
+                   % (cstr(sym_of(f)), cstr(f['sub']), first, f['nparams'], copt(f['ret'], cstr), cbool(bool(f.get('ann_method'))),
+                      cbool(intro.get(sym_of(f), True)),
                       clist(['(%s, %s, %s, %s)' % (cstr(a), cstr(b), cstr(c), copt(d, cstr)) for a, b, c, d in obs.get(sym_of(f), [])])))
     return '{| w4_id := %d; w4_types := %s; w4_funcs := %s |}' % (i, tys, clist(fcs))
 
@@ -152,8 +169,10 @@ def coq_world(i, world, obs, intro):
 def main(tier, seed):
     ck = Check('C04', tier, seed)
     ck.assumptions += ['declarations are SourceSymbol trees (stub lexer); registered types come with a runtime dump given as XML',
-                       'one namespace with identifier prefix Foo and symbol prefix foo; (method)/(constructor) annotations, out-direction first '
-                       'parameters, unions, aliases, callbacks and constants are not generated here',
+                       'one namespace with identifier prefixes Foo, Bar and symbol prefixes foo, bar; an included namespace FooExt whose symbol '
+                       'prefix foo_ext extends foo; (method) annotations on functions that do not carry their type\'s prefix; struct tag before '
+                       'or after its typedef; (constructor) annotations, out-direction first parameters, unions, aliases and callbacks are not '
+                       'generated here',
                        'every generated function has simple types, so that none is dropped as a non-introspectable compatibility copy']
     ck.prove([], models=['Model/C04Spec.vo'])
     import scanner as S
@@ -164,8 +183,8 @@ def main(tier, seed):
         w = gen_world(rng)
         syms, dump = build(w, S)
         try:
-            r = S.run(syms, includes=['GLib', 'GObject', 'Gio'], dump=dump, warnings=False, identifier_prefixes=['Foo', 'Bar'],
-                      symbol_prefixes=['foo', 'bar'])
+            r = S.run(syms, comments=w.get('comments', ()), includes=['GLib', 'GObject', 'Gio', 'FooExt'], dump=dump, warnings=False,
+                      identifier_prefixes=['Foo', 'Bar'], symbol_prefixes=['foo', 'bar'])
         except (Exception, SystemExit) as e:      # noqa
             ck.failing_input('the scanner fails on a generated namespace: %r' % (e,), dict(world=w))
             continue
@@ -198,6 +217,9 @@ def main(tier, seed):
                 continue
             if not occ:
                 ck.failing_input('a public function of the namespace is missing from the GIR', dict(case, symbol=cid))
+            if f.get('ann_method') and sorted(occ) != [(f['first'][0], 'method', f['sub'], None)]:
+                ck.failing_input('a function annotated (method) is not described exactly once, as a method of its first parameter\'s type under '
+                                 'its own name', dict(case, symbol=cid), detail=occ)
             real = [o for o in occ if o[3] is None]
             if len(real) > 1 or len(occ) > 2:
                 ck.failing_input('a C identifier is described more than once (beyond one moved-to copy)', dict(case, symbol=cid), detail=occ)
